@@ -40,7 +40,7 @@ PROGRAMS = {
 ALPHA_FULL = [
     "ack1", "ack2", "data:62f190aa", "data:7f2278", "alive", "nack1:03", "fdataS:aa", "ack1-echo", "nack1:06",
     "ack1-noecho", "ack1-prefix", "ack1-addr", "ack1-other", "fdataD:bb", "unknown", "hdrnack", "actresp", "nack2:06", "nack1:ff",
-    "nack1-echo:03", "ack2-echo",
+    "nack1-echo:03", "ack2-echo", "fdataR:22f190",
 ]
 ALPHA_CORE = ["ack1", "ack2", "data:62f190aa", "data:7f2278", "alive", "nack1:03", "fdataS:aa", "ack1-echo", "nack1:06"]
 
@@ -116,6 +116,11 @@ def items(tier: str, seed: int) -> list[Any]:
                     L = stream_len(fr, PROGRAMS[pname])
                     for k in range(1, L):
                         add(fr, pname, ("at", k))
+    # gateway traffic spread over time: other frames keep arriving, the ack comes after the 2 s ack time / just in time
+    for filler in ("fdataS:aa", "ack1-echo", "data:62f190aa", "alive", "hdrnack"):
+        for times, ack_at in (((1.2,), 2.4), ((0.8, 1.6), 2.6), ((1.2,), 1.8), ((1.0, 1.8), 1.9)):
+            fr = [(filler, 1, t) for t in times] + [("ack1", 1, ack_at), ("data:7f2278", 1, ack_at)]
+            add(fr, "wr", "frames")
     # conformance of the stream model against real loopback sockets / real timers (few: they take real seconds)
     conf = [
         ([("ack1", 1), ("data:62f190aa", 1)], "wr", "one"),
